@@ -51,3 +51,14 @@ func VerifCompile() {
 		verifAssert(mj != nil, "C17:mustcompile-returns-expression")
 	}
 }
+
+// VerifSearchBytes: Search on an expression with symbolic bytes between
+// concrete text (arbitrary bytes, including invalid UTF-8, reach string
+// functions through raw strings); only "no panic" is claimed.
+func VerifSearchBytes() {
+	n := verifParam("N")
+	src := verifParamStr("pre") + verifNondetBytes(n) + verifParamStr("post")
+	doc := verifNondetJSON(1)
+	_, err := Search(src, doc)
+	verifNote("err", err != nil)
+}
